@@ -72,6 +72,17 @@ func BuildExpr(e *Ex) (expr.Expr, error) {
 		return expr.CONST(e.Num), nil
 	case "PCT":
 		return expr.PERCENTILE(expr.FIELD(e.F), expr.CONST(e.Pct), e.Lo, e.Hi, e.Prec), nil
+	case "PCTOPT":
+		// PERCENTILE(<existing percentile>, p): reads another percentile of
+		// the wrapped percentile's histogram (msgpack extension 60)
+		w, err := BuildExpr(e.Args[0])
+		if err != nil {
+			return nil, err
+		}
+		if !expr.IsPercentile(w) {
+			return nil, fmt.Errorf("PCTOPT around %s", e.Args[0].Op)
+		}
+		return expr.PERCENTILEOPT(w, expr.CONST(e.Pct)), nil
 	case "IF":
 		cond, err := BuildPred(e.Cond)
 		if err != nil {
